@@ -329,6 +329,9 @@ def gen_acf(rng, tier):
                 lines.append(pos(a, P[a][0], P[a][1], P[a][2]))
             lines.append("m.step")
             hist.append([list(p_) for p_ in P])
+            # a new run of the engine repeats its first step: nothing is sampled twice and the interleaved histories (stride > 1) stay aligned
+            if s_ >= 2 and rng.rand() < 0.12:
+                lines.append("m.step cont")
         lines.append("t.dump %s.p.corrfunc.dat" % prefix)
         cases.append({"lines": lines, "meta": {"family": "acf", "vt": vt, "acf": acf, "K": K, "dt": dt, "it0": it0, "history": hist, "dump": len(lines)},
                       "nontrivial": True})
